@@ -10,7 +10,7 @@ CONSTANTS
   MaxMicro = 80
   Bodies <- BWithInline
   SendVals <- SendThorough
-  TopChoices <- DesignTops
-  LockChoices <- LockTops
+  TopChoices <- QuickDesignTops
+  LockChoices <- QuickLockTops
 INVARIANTS TypeOK Transparent DoneAbsorbing DoneStatus SendCreated LazyCreation Quiescent SuspendedAtYield
 CHECK_DEADLOCK FALSE
